@@ -55,7 +55,7 @@ def plan(prop, tier):
     elif prop == "C05":
         par("all kernels", ("collect_vec", "collect_x", "count", "reduce", "find"), ["P_AtMostOnce", "P_ExactlyOnce", "P_DisjointPulls"],
             NN_=(3 if q else 4), fans="Fans_find")
-        P.append(("turnstile of by-value iterator sources", "MC_Source.tla", source_consts(q), ["TypeOK", "MutualExclusion", "EachOnce", "InOrder", "NothingAfterComplete"], ["Quiesces"]))
+        P.append(("turnstile of by-value iterator sources", "MC_Source.tla", source_consts(q), ["TypeOK", "MutualExclusion", "EachOnce", "InOrder"], ["Quiesces", "NothingAfterComplete"]))
     elif prop == "C06":
         par("collect(bag+merge)", ("collect_vec",), ["P_OrderedCollect", "P_BuffersSorted"], css="Cs_all" if not q else "Cs_min_auto")
         P.append(("collect_into targets", "MC_CollectInto.tla", {}, ["AppendsAfterPrefix"], []))
@@ -78,8 +78,8 @@ def plan(prop, tier):
     elif prop == "C14":
         P.append(("ownership tokens with a panicking closure", "MC_Tokens.tla", tokens_consts(q, True), ["TypeOK", "NoDoubleDrop", "NoBadDrop", "PanicPropagates"], ["Finishes"]))
     elif prop == "C15":
-        P.append(("runner settings arithmetic", "MC_Settings.tla", {"MaxLen": "= 40" if q else "= 72", "MaxT": "= 17"}, ["ChunkPositive", "ThreadsPositive", "NextChunkSane", "MinChunkCoversInput"], []))
-        par("min/auto chunks", ("collect_vec", "count", "find"), ["P_OrderedCollect", "P_Count", "P_FirstMatch", "P_ExactlyOnce"], css="Cs_all", fans="Fans_find", NN_=(4 if q else 5))
+        P.append(("runner settings arithmetic", "MC_Settings.tla", {"MaxLen": "= 20" if q else "= 72", "MaxT": "= 9" if q else "= 17"}, ["ChunkPositive", "ThreadsPositive", "NextChunkSane", "MinChunkCoversInput", "AutoChunkIsPowerOfTwo"], []))
+        par("min/auto chunks", ("collect_vec", "count") if q else ("collect_vec", "count", "find"), ["P_OrderedCollect", "P_Count", "P_FirstMatch", "P_ExactlyOnce"], css="Cs_min_auto" if q else "Cs_all", fans="Fans_012" if q else "Fans_find", NN_=4)
     elif prop == "C16":
         P.append(("builder state machine", "MC_ParApi.tla", {"Depth": "= 4" if not q else "= 3"}, ["TypeOK", "LazyExceptKnownSites", "TerminalUnderCurrentParams"], []))
     return P
@@ -90,7 +90,7 @@ def source_consts(q):
 
 
 def tokens_consts(q, panic):
-    return {"NE": "= 3" if q else "= 4", "NW": "= 2", "C": "= {1, 2}", "Panic": "= TRUE" if panic else "= FALSE"}
+    return {"NE": "= 3" if q else "= 4", "NW": "= 2", "C": "= {1, 2}", "Panic": "= TRUE" if panic else "= FALSE", "BagOnPanic": '= "leak"'}
 
 
 def model_check_for(prop, tier, work):
@@ -103,7 +103,7 @@ def model_check_for(prop, tier, work):
         cfgp = os.path.join(work, f"mc-{len(res)}.cfg")
         with open(cfgp, "w") as f:
             f.write(cfg_text(spec, consts, invs, props))
-        r = model_check(module, cfgp, work, workers=8, timeout=(900 if tier == "quick" else 7200))
+        r = model_check(module, cfgp, work, workers=12, timeout=(900 if tier == "quick" else 7200))
         r["name"] = f"{module}: {name}"
         r["bounds"] = consts
         r["invariants"] = invs + props
@@ -135,6 +135,8 @@ GEN_RE = re.compile(r'^<<"GEN", (".*")>>$')
 def generated_jobs(prop, tier, seed, work):
     """Runs TLC on Gen_ParRun in simulation mode (seeded) over the property's program families
     and turns each complete behaviour into a replay job."""
+    if prop in ("C12", "C16"):
+        return api_jobs(prop, tier, seed, work)
     fams = GEN_FAMILIES.get(prop, [])
     want = 300 if tier == "quick" else 4000
     jobs, stats = [], {"generated_schedules": 0, "distinct_schedules": 0, "tlc_s": 0.0}
@@ -168,6 +170,55 @@ def generated_jobs(prop, tier, seed, work):
     stats["distinct_schedules"] = len(jobs)
     stats["tlc_s"] = round(time.time() - t0, 2)
     return jobs, stats
+
+
+API_RE = re.compile(r'^<<"API", (".*")>>$')
+
+
+def api_jobs(prop, tier, seed, work):
+    """Every chain of the builder state machine (MC_ParApi) up to the depth bound is a state of
+    TLC's graph; each one (sampled in the quick tier) becomes one implementation run."""
+    depth = 3 if tier == "quick" else 4
+    cfgp = os.path.join(work, "api.cfg")
+    with open(cfgp, "w") as f:
+        f.write(cfg_text("Spec", {"Depth": f"= {depth}"}, ["Emit"]))
+    t0 = time.time()
+    rc, out, dt = tlc("MC_ParApi.tla", cfgp, work, workers=1, timeout=1800, deque=False)
+    chains = []
+    for line in out.splitlines():
+        mm = API_RE.match(line.strip())
+        if mm:
+            chains.append(json.loads(json.loads(mm.group(1)))["ops"])
+    rng = random.Random(seed + 7)
+    total = len(chains)
+    want = 400 if tier == "quick" else 6000
+    rng.shuffle(chains)
+    # all short chains, a sample of the long ones
+    chains.sort(key=len)
+    short = [c for c in chains if len(c) <= 2]
+    longer = [c for c in chains if len(c) > 2]
+    chains = short + longer[:max(0, want - len(short))]
+    jobs = []
+    for ops in chains:
+        nst = sum(1 for o in ops if o["k"] in KIND.values())
+        src = rng.choice(("vec", "iterx") if nst == 3 else ("vec", "iterx", "iter", "slice", "range"))
+        full = []
+        if src in ("slice", "range"):
+            full.append({"k": "map", "t": list(range(V)), "h": 1})
+        big = False
+        for o in ops:
+            if o["k"] in KIND.values():
+                inv = {v: k for k, v in KIND.items()}
+                full.append(rnd_table(rng, o["k"]))
+            else:
+                big = big or o["v"] > 64
+                full.append({"k": o["k"], "v": o["v"]})
+        p = {"src": src, "input": gen_input(rng, src, rng.choice([2, 5, 8])), "ops": full,
+             "term": {"k": "none" if big else rng.choice(["count", "collect_vec", "first", "none"])}, "cs": -1, "ck": 0}
+        jobs.append({"id": len(jobs) + 1, "mode": "free", "seed": seed, "sticky": 0.0, "sched": [], "logcalls": 1,
+                     "spin": 0, "timeout_ms": 60000, "track": 1, "p": norm(p)})
+    return jobs, {"builder_chains_in_state_graph": total, "chains_replayed": len(jobs), "depth": depth,
+                  "tlc_s": round(time.time() - t0, 2)}
 
 
 # ------------------------------------------------------------------ strict conformance (never an alarm)
